@@ -62,6 +62,13 @@ inductive View where
   | asMap | asDict | values | keys | asJson
   deriving DecidableEq, Repr
 
+/-- A stretch of the records the constructor `DataFrame(dictionaries)` builds rows from: the record `next(dicts)`
+took off (`first`), what the iterator `dicts = iter(dictionaries)` still has (`rest`), a NEW iteration of the
+caller's object (`again`). -/
+inductive Seg where
+  | first | rest | again
+  deriving DecidableEq, Repr
+
 /-- Where `RelationSchema.__iter__` takes the column names from: the column objects as they are now
 (`[col.name for col in self.columns]`) or the `column_names` accessor. -/
 inductive IterVia where
